@@ -315,6 +315,9 @@ func runScenario(sc scenario) {
 		if f := r.framed.Load(); f == 0 || f > shutdownCall || neverOpen[r] || isReset[r.conn] {
 			continue
 		}
+		if st := r.started.Load(); sc.OneWay && r.seq%2 == 0 && len(neverOpen) > 0 && (st == 0 || st > endStamp) {
+			continue // queued behind handlers that never finish (bounded pool): not judged, like the two-way case below
+		}
 		if sc.OneWay && r.seq%2 == 0 {
 			if r.responses.Load() != 0 {
 				run.Violation("one-way-request-answered", locus, fmt.Sprintf("one-way request %d on connection %d received a response", r.seq, r.conn), wit(nil))
